@@ -110,7 +110,7 @@ def run(c):
     if res.violated:
         raise tlcmod.TlcError("Canon.tla does not cover every signed component: %s" % res.trace_text[:1500])
     # phase 1a: proxied route
-    n = 400 if not thorough else 4000
+    n = 400 if not thorough else 12000
     steps = [{"op": "set_key", "guid": GUID, "key": KEY}]
     reqs = {}
     conn = None
@@ -154,7 +154,7 @@ def run(c):
     if missing:
         raise util.ToolError("%d requests never reached the host (authorized root caller): %s" % (len(missing), missing[:3]))
     # phase 1b: builder route on arbitrary requests (function table)
-    nb = 300 if not thorough else 3000
+    nb = 300 if not thorough else 10000
     cmds = []
     for i in range(nb):
         q = rand_query(rnd)
